@@ -12,16 +12,70 @@ struct Bufs {
     langx::Exact<char32_t> e32;
 };
 
+// the document parsed right after every rejected text, through the same caller-supplied stream: a rejected text must
+// not leave anything behind that changes what the next document parses to
+template <typename C>
+struct Follow {
+    StringStream<C> stream; // the parser's scratch stream, supplied by the caller and reused
+    Text            good;
+    std::string     expect;
+    Follow() {
+        good = to_units<C>(T("[\"x\\ny\",\"z\",{\"k\":\"v\"}]"));
+        StringStream<C> fresh;
+        Value<C>        v = JSON::Parse(fresh, good.data() ? reinterpret_cast<const C *>(copy().data()) : nullptr, SizeT(good.size()));
+        expect            = ref::dump(v);
+    }
+    std::basic_string<C> copy() const {
+        std::basic_string<C> c;
+        for (auto u : good) {
+            c.push_back((C)u);
+        }
+        return c;
+    }
+};
+
 template <typename C>
 static void must_reject(const Text &cps, const char *how, langx::Exact<C> &ex, vx::Ctx &ctx) {
-    Text     units = to_units<C>(cps);
-    const C *p     = ex.put(units);
+    static Follow<C> follow;
+    Text             units = to_units<C>(cps);
+    const C         *p     = ex.put(units);
     {
-        Value<C> v = JSON::Parse(p, SizeT(units.size()));
+        Value<C> v = JSON::Parse(follow.stream, p, SizeT(units.size()));
         ctx.acc.count("evals");
         if (!v.IsUndefined()) {
             ctx.fail(std::string(wname<C>()) + " " + how + " " + langx::show(cps), "accepted as " + ref::dump(v));
         }
+    }
+    {
+        const std::basic_string<C> g = follow.copy();
+        Value<C>                   v = JSON::Parse(follow.stream, g.data(), SizeT(g.size()));
+        ctx.acc.count("evals");
+        const std::string d = ref::dump(v);
+        if (d != follow.expect) {
+            ctx.fail(std::string(wname<C>()) + " after " + how + " " + langx::show(cps),
+                     "the next document parsed through the same stream gives " + d + ", alone it gives " + follow.expect);
+        }
+    }
+    follow.stream.Reset(); // nothing of the library's stays allocated between cases (the ledger is checked per case)
+}
+
+// a string literal as the whole document: accepted as that string, every proper prefix rejected
+template <typename C>
+static void scalar_string(const Text &lit, langx::Exact<C> &ex, vx::Ctx &ctx) {
+    Text     units = to_units<C>(lit);
+    const C *p     = ex.put(units);
+    Value<C> v     = JSON::Parse(p, SizeT(units.size()));
+    ctx.acc.count("evals");
+    if (!v.IsString()) {
+        ctx.acc.count("rejected_valid_docs"); // C06's business
+    }
+    for (size_t n = 0; n < lit.size(); n++) {
+        must_reject<C>(lit.substr(0, n), "string-prefix", ex, ctx);
+    }
+    for (char32_t sfx : {U'x', U'"', U',', U']', U'\\', U'0'}) {
+        Text t = lit;
+        t.push_back(sfx);
+        must_reject<C>(t, "string-suffix", ex, ctx);
     }
 }
 
@@ -101,7 +155,8 @@ int main(int argc, char **argv) {
         plan.rule = "for every generated RFC 8259 container document D (<=" + std::to_string(nodes) +
                     " nodes, scalar pools, no trailing whitespace): all proper prefixes (code points and UTF-8 code units), D followed by "
                     "each of the 124 non-whitespace 7-bit units and 7 whitespace look-alikes (with and without a space), every closing bracket swapped or removed - all must "
-                    "yield Undefined; plus every string of <=" + std::to_string(nu) + " units over the C05 alphabet: an accepted text "
+                    "yield Undefined, and the document parsed next through the same caller-supplied stream gives what it gives alone; every string "
+                    "literal of the pools as a whole document: every proper prefix and six suffixes rejected; plus every string of <=" + std::to_string(nu) + " units over the C05 alphabet: an accepted text "
                     "must contain no Undefined node and re-parse from its own Stringify to the same tree; distinct = documents + "
                     "distinct accepted trees";
         plan.bounds = "nodes<=" + std::to_string(nodes) + " units<=" + std::to_string(nu);
@@ -134,6 +189,34 @@ int main(int argc, char **argv) {
                         ctx.acc.sample("family of " + langx::show(t));
                     }
                 });
+            };
+            plan.stages.push_back(st);
+        }
+        {
+            // a string literal as the whole document (the statement's first sentence; the family above only has containers)
+            vx::Stage st;
+            st.name   = "scalar-strings";
+            st.chunks = 16;
+            st.fn     = [th](int64_t chunk, vx::Ctx &ctx) {
+                static Bufs  b;
+                static Pools pools_q = make_pools(false), pools_t = make_pools(true);
+                const Pools &P       = th ? pools_t : pools_q;
+                for (size_t i = (size_t)chunk; i < P.strings.size(); i += 16) {
+                    if (!ctx.next()) {
+                        continue;
+                    }
+                    if (ctx.want_desc()) {
+                        ctx.describe("document " + langx::show(P.strings[i]));
+                    }
+                    ctx.acc.count("states");
+                    ctx.acc.count("distinct");
+                    scalar_string<char>(P.strings[i], b.e8, ctx);
+                    scalar_string<char16_t>(P.strings[i], b.e16, ctx);
+                    scalar_string<char32_t>(P.strings[i], b.e32, ctx);
+                    Text padded = T(" ") + P.strings[i];
+                    scalar_string<char>(padded, b.e8, ctx);
+                    ledger_ok(ctx, langx::show(P.strings[i]));
+                }
             };
             plan.stages.push_back(st);
         }
